@@ -239,7 +239,7 @@ def make_interp(entry, seeds, allow_compound, named=None):
     return items
 
 
-PROBE_MODEL = ["evaluate", "evaluate_propositions", "evaluate", "to_ge_polyhedron", "solve", "reduce", "negate", "to_json", "errors", "flags"]
+PROBE_MODEL = ["evaluate", "evaluate_propositions", "evaluate", "to_ge_polyhedron", "solve", "reduce", "negate", "to_json", "errors", "flags", "inspect"]
 PROBE_CFG = PROBE_MODEL + ["ge_polyhedron", "select", "default_prios", "leafs", "ge_polyhedron", "select"]
 
 
